@@ -220,7 +220,7 @@ E2E_RULES = {
 }
 
 
-def _e2e(ctx, modes):
+def _e2e(ctx, modes, fn_name='filter_case', gen_mode=None, label=None):
     from . import e2e
     with C.BuildLock():
         ok, out = C.cli_build()
@@ -230,8 +230,9 @@ def _e2e(ctx, modes):
     for mode in modes:
         n = E2E_COUNTS[ctx.tier][mode]
         t0 = time.time()
-        cases = e2e.gen_cases(mode, ctx.seed, n)
-        results = e2e.run_pool(e2e.filter_case, cases)
+        cases = e2e.gen_cases(gen_mode or mode, ctx.seed, n)
+        results = e2e.run_pool(getattr(e2e, fn_name), cases)
+        known_classes = {kf.get('class'): kf for kf in C.load_known_findings() if kf['kind'] == 'finding' and kf.get('property') == pid}
         dist, errors, mine, others = {}, [], [], 0
         for r in results:
             for k, v in r['dist'].items():
@@ -240,6 +241,14 @@ def _e2e(ctx, modes):
                 errors.append((r['id'], r['error']))
             for (p, msg) in r['failures']:
                 if p == pid:
+                    m = re.match(r'\[([a-z0-9-]+)\]', msg)
+                    if m and m.group(1) in known_classes:
+                        kf = known_classes[m.group(1)]
+                        line = f"KNOWN-FINDING: property={pid} {kf.get('id','')} {kf.get('what','')}"
+                        if line not in ctx.known_lines:
+                            ctx.known_lines.append(line)
+                        dist['known-finding-' + m.group(1)] = dist.get('known-finding-' + m.group(1), 0) + 1
+                        continue
                     mine.append((r['id'], msg))
                 else:
                     others += 1
@@ -247,7 +256,9 @@ def _e2e(ctx, modes):
             dist['harness-errors'] = len(errors)
             ctx.notes.append(f'e2e({mode}) harness errors: {errors[:3]}')
         nontrivial = dist.get('tool-ok', 0) if mode != 'filter' else dist.get('runs-with-pruned-commits', 0) + dist.get('runs-with-renamed-refs', 0)
-        ctx.parts.append(dict(name=f'e2e({mode})', evaluations=len(cases), distinct_nontrivial=nontrivial, rule=E2E_RULES[mode],
+        if label:
+            nontrivial = dist.get('dry-run-ok', 0) or dist.get('tool-ok', 0) or len(cases)
+        ctx.parts.append(dict(name=f'e2e({label or mode})', evaluations=len(cases), distinct_nontrivial=nontrivial, rule=E2E_RULES[label or mode],
                               samples=[{'cli': cases[0]['cli'], 'head': cases[0]['head'], 'n_commits': cases[0]['n_commits']}] if cases else [],
                               distribution=dist, wall_s=round(time.time() - t0, 1), impl_property_failures_for_this_property=len(mine),
                               impl_property_failures_other_properties=others))
@@ -257,7 +268,7 @@ def _e2e(ctx, modes):
                 continue
             seen.add(cid)
             case = [c for c in cases if c['id'] == cid][0]
-            path = C.write_replay(pid, 'oracle-failure', dict(runner='e2e', mode=mode, case_id=cid, seed=ctx.seed, count=n,
+            path = C.write_replay(pid, 'oracle-failure', dict(runner='e2e', mode=gen_mode or mode, fn=fn_name, case_id=cid, seed=ctx.seed, count=n,
                                                              cli=case['cli'], head=case['head'], stream_hex=case['stream_hex'], aux=case['aux'],
                                                              property_failure=msg))
             ctx.violations.append((path, False, msg[:300]))
@@ -268,13 +279,23 @@ def e2e_filter(ctx):
     _e2e(ctx, ctx.spec.get('e2e_modes', ['filter']))
 
 
+E2E_COUNTS['quick']['dryrun'] = 120
+E2E_COUNTS['thorough']['dryrun'] = 2500
+E2E_RULES['dryrun'] = ('generated histories as plain repositories and as fresh clones with an origin remote and remote-tracking refs; the real CLI with --dry-run and a generated option set plus a rotating subset of --force, --backup, --sensitive --no-fetch, --write-report, --cleanup aggressive; full snapshot before/after (refs, HEAD, status, local config, remotes, object list, sha1 of every file under .git outside filter-repo/, work tree) must be identical and no bundle may appear; then the same options without --dry-run on a copy: fast-export.filtered must be byte-identical. Non-trivial: the dry run is accepted.')
+
+
+@runner
+def e2e_dryrun(ctx):
+    _e2e(ctx, ['dryrun'], fn_name='dryrun_case', gen_mode='filter', label='dryrun')
+
+
 def _replay_e2e(ctx, doc, path):
     from . import e2e
     with C.BuildLock():
         C.cli_build()
     cases = e2e.gen_cases(doc['mode'], doc.get('seed', 1), doc['count'])
     case = [c for c in cases if c['id'] == doc['case_id']][0]
-    r = e2e.filter_case(case)
+    r = getattr(e2e, doc.get('fn', 'filter_case'))(case)
     mine = [m for (p, m) in r['failures'] if p == ctx.pid]
     print(json.dumps({'failures': r['failures'], 'error': r.get('error')}, indent=1))
     if mine:
